@@ -183,6 +183,15 @@ func streamUnmarshal(r *hx.Rng, cfs []*cfile, bs *builtSet) {
 						}
 						cases = append(cases, ucase{c, md, inflate(r, base), nil, "inflated", false}, ucase{c, md, inflate(r, base), pre, "inflated", false},
 							ucase{c, md, r.Bytes(1 + r.Intn(16)), nil, "random", false})
+						if vi%6 == 0 {
+							// an unknown field whose KEY is a non-minimal varint (well-formed wire data no writer emits), first / last
+							unk := g.unknownField(md)
+							_, _, kn := protowire.ConsumeTag(unk)
+							pad := append(append([]byte{}, unk[:kn-1]...), unk[kn-1]|0x80, 0x00)
+							pad = append(pad, unk[kn:]...)
+							cases = append(cases, ucase{c, md, append(append([]byte{}, base...), pad...), nil, "nonminkey", false},
+								ucase{c, md, append(append([]byte{}, pad...), base...), pre, "nonminkey", false})
+						}
 					}
 				}
 			}
@@ -201,6 +210,33 @@ func streamUnmarshal(r *hx.Rng, cfs []*cfile, bs *builtSet) {
 		resps, derr := runDriver(bv.Driver, reqs)
 		if derr != nil {
 			fail("the driver process running generated code died (fatal error / out of memory)", bv.V.Name(), "all requests answered", derr.Error(), "driver-died")
+		}
+		// C08, the most literal reference: the owning runtime's own decoder on the SAME generated Go type (protobuf-go's
+		// fast path, gogo's table-driven code), for a sample of the inputs and for all with non-minimal unknown keys
+		if prop == "C08" && bv.V.Runtime() == "google" {
+			// (protobuf-go is THE reference runtime of the properties; gogo's own decoder differs from protobuf-go on
+			// illegal encodings -- e.g. it un-zig-zags a sint32 varint of more than 32 bits before truncating, protobuf-go
+			// and csproto after -- and files unknown fields of extendable messages under its extension store)
+			var ruIdx []int
+			var ruReqs []string
+			for i, u := range cases {
+				if u.stream == "nonminkey" || i%4 == 0 {
+					ruIdx = append(ruIdx, i)
+					ruReqs = append(ruReqs, fmt.Sprintf("RU %s %s", u.md.FullName(), hx.B(u.input)))
+				}
+			}
+			ruResps, _ := runDriver(bv.Driver, ruReqs)
+			for k, i := range ruIdx {
+				u := cases[i]
+				setCtx(bv, u.md, u.input)
+				sink.OracleN++
+				sink.Count("runtime-own-decoder")
+				if strings.HasPrefix(resps[i], "ok ") && strings.HasPrefix(ruResps[k], "ok ") && resps[i] != ruResps[k] {
+					fail("generated Unmarshal and the owning runtime's own decoder both accept the input but decode different messages",
+						fmt.Sprintf("variant=%s type=%s input=%s", bv.V.Name(), u.md.FullName(), hx.B(u.input)), ruResps[k], resps[i], classify("um-vs-runtime-differs", u.md, u.input))
+				}
+			}
+			failCtx.suffix = ""
 		}
 		for i, u := range cases {
 			resp := resps[i]
@@ -430,6 +466,9 @@ func classify(base string, md protoreflect.MessageDescriptor, input []byte) stri
 	if dupSingularMsg(md, input) {
 		return base + ":dupmsg"
 	}
+	if nonMinimalUnknownKey(md, input) {
+		return base + ":nonminkey"
+	}
 	if hasNegZero(md, input) {
 		return base + ":negzero"
 	}
@@ -517,6 +556,9 @@ func outsideRefModel(md protoreflect.MessageDescriptor, b []byte) string {
 		if typ == protowire.StartGroupType || typ == protowire.EndGroupType {
 			return "group"
 		}
+		if fieldByNumber(md, num) == nil && n > protowire.SizeVarint(protowire.EncodeTag(num, typ)) {
+			return "nonminkey" // protobuf-go re-encodes the key of an unknown field in minimal form (finding G37)
+		}
 		k := protowire.ConsumeFieldValue(num, typ, b[n:])
 		if k < 0 {
 			return ""
@@ -539,4 +581,34 @@ func outsideRefModel(md protoreflect.MessageDescriptor, b []byte) string {
 		b = b[n+k:]
 	}
 	return ""
+}
+
+// nonMinimalUnknownKey: some field the schema does not declare (at any depth) has its key written as a
+// non-minimal varint.  protobuf-go stores unknown fields as canonical key + raw value, the generated code (and
+// the model's reference semantics) keep the raw bytes: finding G37.
+func nonMinimalUnknownKey(md protoreflect.MessageDescriptor, b []byte) bool {
+	for len(b) > 0 {
+		num, typ, n := protowire.ConsumeTag(b)
+		if n < 0 {
+			return false
+		}
+		k := protowire.ConsumeFieldValue(num, typ, b[n:])
+		if k < 0 {
+			return false
+		}
+		fd := fieldByNumber(md, num)
+		if fd == nil && n > protowire.SizeVarint(protowire.EncodeTag(num, typ)) {
+			return true
+		}
+		if fd != nil && typ == protowire.BytesType && fd.Kind() == protoreflect.MessageKind {
+			// (a map entry is a message {1: key, 2: value}: foreign fields inside it are ignored by both sides, its
+			// message value is looked into)
+			val, _ := protowire.ConsumeBytes(b[n:])
+			if nonMinimalUnknownKey(fd.Message(), val) {
+				return true
+			}
+		}
+		b = b[n+k:]
+	}
+	return false
 }
